@@ -48,7 +48,9 @@ def make_index(spec, n):
     elif kind == "float":
         idx = pd.Index(np.array(vals, dtype="float64"))
     elif kind == "str":
-        idx = pd.Index(pd.array(list(vals), dtype="string[pyarrow]"))
+        # the default string index of this pandas: an explicit ``string[pyarrow]`` extension index with repeated labels is rejected by
+        # the pinned dask's sorted_division_locations (ArrowExtensionArray has no .nonzero) while from_pandas builds the source
+        idx = pd.Index(list(vals))
     elif kind == "dt":
         idx = pd.DatetimeIndex([T0 + pd.Timedelta(days=int(v)) for v in vals]).astype(
             "datetime64[ns]"
